@@ -580,6 +580,25 @@ pub async fn host_main(h: usize, sh: Rc<Shared>) -> turmoil::Result {
                 log("OBS ok".into());
                 continue;
             }
+            if op == "select4" {
+                // an unbiased select over four ready branches: the pick comes from the runtime's
+                // (seeded) rng, so it must be the same in every execution of the scenario
+                log(format!("OP h{h} {op}"));
+                let pick = tokio::select! {
+                    _ = std::future::ready(()) => 0,
+                    _ = std::future::ready(()) => 1,
+                    _ = std::future::ready(()) => 2,
+                    _ = std::future::ready(()) => 3,
+                };
+                log(format!("OBS ok {pick}"));
+                continue;
+            }
+            if op == "exit" {
+                // the software returns: the host is finished until it is bounced
+                log(format!("OP h{h} {op}"));
+                log("OBS ok".into());
+                return Ok(());
+            }
             log(format!("OP h{h} {op}"));
             let obs = ctx.exec(&op);
             drain_oracle();
